@@ -51,3 +51,86 @@ fn c13_pmh2_m3() {
 fn c13_pmh2_m5() {
     c13_reset_pmh2::<5>();
 }
+
+// =====================================================================================
+// C02 — step lemma for ProbMinHash2::hash_item
+// =====================================================================================
+use rand_xoshiro::Xoshiro256PlusPlus as Xo;
+
+pub(crate) fn any_pow2_weight() -> f64 {
+    let e: i64 = kani::any();
+    kani::assume(e >= -40 && e <= 40);
+    f64::from_bits(((1023 + e) as u64) << 52)
+}
+
+fn c02_pmh2_step<const M: usize>(weight: f64) {
+    let initobj: u64 = kani::any();
+    let mut s = Pmh2::new(M, initobj);
+    for p in 0..M {
+        s.signature[p] = kani::any();
+    }
+    s.maxvaluetracker = mvk::any_tracker_f64(M);
+    // the permutation generator may be in any state left by the previous item: hash_item must reset it
+    s.permut_generator = fyk::any_shuffle(M);
+    let mut reg = [0f64; M];
+    let mut sig = [0u64; M];
+    for p in 0..M {
+        reg[p] = s.maxvaluetracker.get_value(p);
+        sig[p] = s.signature[p];
+    }
+    let id: u64 = kani::any();
+    // ---- the real call
+    s.hash_item(id, weight);
+    // ---- reference: all m points of the item (one per position, slots without replacement), no stop rule
+    let winv = 1. / weight;
+    let mut rng = Xo::seed_from_u64(nohash(id));
+    let mut perm = FYshuffle::new(M);
+    let mut best = [f64::INFINITY; M];
+    let x0: f64 = Exp1.sample(&mut rng);
+    let mut h: f64 = winv * x0;
+    for t in 0..M {
+        let k = perm.next(&mut rng);
+        for p in 0..M {
+            if p == k {
+                best[p] = h;
+            }
+        }
+        if t + 1 < M {
+            let x: f64 = Exp1.sample(&mut rng);
+            h += winv * ((M as f64) / ((M - t - 1) as f64)) * x;
+        }
+    }
+    for p in 0..M {
+        let r = s.maxvaluetracker.get_value(p);
+        assert!(r == fmin(reg[p], best[p]));
+        if best[p] < reg[p] {
+            assert!(s.signature[p] == id);
+        } else {
+            assert!(s.signature[p] == sig[p]);
+        }
+    }
+    assert!(mvk::tracker_inv_f64(&s.maxvaluetracker));
+    assert!(s.m == M && s.initobj == initobj && s.signature.len() == M);
+    kani::cover!(s.signature[0] == id && sig[0] != id && (M < 2 || s.signature[M - 1] == sig[M - 1] && sig[M - 1] != id), "witness: one position taken, another kept");
+}
+
+#[kani::proof]
+#[kani::unwind(5)]
+fn c02_pmh2_step_m2() {
+    c02_pmh2_step::<2>(any_pow2_weight());
+}
+#[kani::proof]
+#[kani::unwind(6)]
+fn c02_pmh2_step_m3() {
+    c02_pmh2_step::<3>(any_pow2_weight());
+}
+#[kani::proof]
+#[kani::unwind(7)]
+fn c02_pmh2_step_m4() {
+    c02_pmh2_step::<4>(any_pow2_weight());
+}
+#[kani::proof]
+#[kani::unwind(6)]
+fn c02_pmh2_step_m3_w07() {
+    c02_pmh2_step::<3>(0.7);
+}
